@@ -85,14 +85,18 @@ def run(ctx):
     if quick:
         hs = hs[ctx.seed % 16::16]
     else:
-        hs += histories(ctx, gens["two"])
+        two = histories(ctx, gens["two"])
+        # the two-transaction histories are far more numerous: an evenly spaced sample of 30 000
+        step = max(1, len(two) // 30000)
+        log("EvmFramesGen: %d one-transaction, %d two-transaction histories (every %d-th replayed)" % (len(hs), len(two), step))
+        hs += two[ctx.seed % step::step]
     if not hs:
         raise Inconclusive("TLC generated no call histories")
     log("EvmFramesGen: %d call histories replayed" % len(hs))
 
     drv = built["drv"]
     shards = 4
-    nrand = 150 if quick else 6000
+    nrand = 150 if quick else 4000
     argvs, traces = [], []
     for k in range(shards):
         sp = os.path.join(ctx.scratch, "script%d.json" % k)
